@@ -21,12 +21,58 @@ def run(rep, prog, tier):
     r7(rep, prog)
     r8(rep, prog)
     r9(rep, prog)
+    r10(rep, prog)
     rep.rule("C12-R6", "score memo invalidation (shared with C13-R2): a scorer whose score() memoises its result in a field of self (RequiredOptionalScorer.score_cache) stores into that field in every DocSet method that moves a sub-docset — advance, seek and seek_danger — so the score reported for a document is the one computed for that document, however it was reached")
     from ..report import Retag
     from .c13 import memo_invalidation
     memo_invalidation(Retag(rep, "C12-R6"), prog, "C12-R6")
     tab = ct.const_int_array(prog, "tantivy::fieldnorm::code::FIELD_NORMS_TABLE")
     rep.check(tab is not None and len(tab) == 256 and all(tab[i] > tab[i - 1] for i in range(1, 256)) and tab[0] == 0, "C12-R3", "FIELD_NORMS_TABLE is a strictly increasing 256-entry table", "quantisation is order preserving", "FIELD_NORMS_TABLE is not a strictly increasing 256-entry table starting at 0")
+
+
+WINDOW_EXEMPT = {
+    "count_including_deleted": "counting drains the union to its end and never reads a score afterwards (the union is left past its last window)",
+}
+
+
+def r10(rep, prog):
+    """a buffered document that is discarded leaves no score behind"""
+    import re
+    from ..rules import natural_loop
+    R = "C12-R10"
+    rep.rule(R, "the union's window is two parallel arrays, `bitsets` (which docs are buffered) and `scores` (one reusable combiner per slot): a method of BufferedUnionScorer that discards buffered docs wholesale (TinySet::clear / TinySet::empty over buckets, as seek does for the buckets it skips) must, on every path from the discard to its return, also run a loop that clears score combiners — otherwise the score accumulated for a skipped doc is added to whichever doc lands on the same slot after the next refill. Only docs popped one by one (advance_buffered, fill_buffer) reset their own slot")
+    DISC = re.compile(r"tantivy_common::bitset::TinySet::(clear|empty)$")
+    SCLR = re.compile(r"tantivy::query::score_combiner::ScoreCombiner::clear$")
+    n_fn = n_disc = 0
+    for fid, b in sorted(prog.bodies.items()):
+        if "buffered_union::BufferedUnionScorer<" not in fid or "{closure" in fid or b.kind in ("const", "static", "promoted"):
+            continue
+        disc = [bi for bi, t in b.calls() if DISC.search(t.get("f") or "") or DISC.search(t.get("res") or "")]
+        if not disc:
+            continue
+        n_fn += 1
+        meth = fid.rsplit("::", 1)[-1]
+        if meth in WINDOW_EXEMPT:
+            rep.check(True, R, "%s discards buffered docs" % short(fid), "exempt: %s" % WINDOW_EXEMPT[meth], "")
+            continue
+        clr = [bi for bi, t in b.calls() if SCLR.search(t.get("f") or "")]
+        # a clear inside a loop counts from the loop's header on (a loop over an empty range clears nothing because nothing was discarded)
+        gates = set(clr)
+        for c in clr:
+            for hb in b.normal_blocks():
+                lp = natural_loop(b, hb)
+                if lp and c in lp:
+                    gates.add(hb)
+        rets = set(b.return_blocks())
+        for d in disc:
+            n_disc += 1
+            reach = b.reachable((d,), blocked=frozenset(gates))
+            leak = sorted(rets & set(reach))
+            rep.check(not leak, R, "%s: buffered docs discarded at bb%d also lose their scores" % (short(fid), d), "every path to the return runs a score-clearing loop (%d clear site(s))" % len(clr),
+                      "`%s` clears bucket bitsets of the window but can return without clearing the score combiners of those buckets: the scores accumulated for the skipped docs stay in `scores[]` and are added to the "
+                      "docs that take the same slots after the next refill (TopDocs scores then disagree with explain() and with other segmentations)" % fid, site=site(b, d))
+    rep.floor(R, "BufferedUnionScorer methods that discard buffered docs", n_fn, 2)
+    rep.floor(R, "discard sites checked", n_disc, 2)
 
 
 def r7(rep, prog):
